@@ -87,7 +87,76 @@ func verifNorm(f *File) {
 // round trip (see /verif/known_findings.json); it returns true when the path
 // lies in such a region and must be skipped.
 func verifC01Known(src []byte, f *File, o verifOpts) bool {
+	// backslash directly followed by CR or NUL: the lexer keeps the pair in the
+	// literal, and the newline the printer writes after it turns it into a
+	// line continuation.
+	bsCR, bsNUL := false, false
+	for i := 0; i+1 < len(src); i++ {
+		if src[i] == '\\' && src[i+1] == '\r' {
+			bsCR = true
+		}
+		if src[i] == '\\' && src[i+1] == 0 {
+			bsNUL = true
+		}
+	}
+	if verifKnown("C01-backslash-cr", bsCR) {
+		return true
+	}
+	if verifKnown("C01-backslash-nul", bsNUL) {
+		return true
+	}
+	// a literal "$" glued to the word part that follows it
+	joined := false
+	Walk(f, func(n Node) bool {
+		if w, ok := n.(*Word); ok {
+			for i := 0; i+1 < len(w.Parts); i++ {
+				if l, ok := w.Parts[i].(*Lit); ok && verifEndsInLoneDollar(l.Value) {
+					joined = true
+				}
+			}
+		}
+		if dq, ok := n.(*DblQuoted); ok {
+			for i := 0; i+1 < len(dq.Parts); i++ {
+				if l, ok := dq.Parts[i].(*Lit); ok && verifEndsInLoneDollar(l.Value) {
+					joined = true
+				}
+			}
+		}
+		return true
+	})
+	if verifKnown("C01-dollar-joined", joined) {
+		return true
+	}
+	// zsh: ">" followed by a word starting with "!" prints as ">!" (zsh's clobber operator)
+	bang := false
+	Walk(f, func(n Node) bool {
+		if r, ok := n.(*Redirect); ok && r.Word != nil && len(r.Word.Parts) > 0 {
+			if l, ok := r.Word.Parts[0].(*Lit); ok && len(l.Value) > 0 && l.Value[0] == '!' {
+				switch r.Op {
+				case RdrOut, AppOut, RdrAll, AppAll:
+					bang = true
+				}
+			}
+		}
+		return true
+	})
+	if verifKnown("C01-zsh-redir-bang", bang) {
+		return true
+	}
 	return false
+}
+
+func verifEndsInLoneDollar(s string) bool {
+	if len(s) == 0 || s[len(s)-1] != '$' {
+		return false
+	}
+	k := len(s) - 1
+	nb := 0
+	for k > 0 && s[k-1] == '\\' {
+		k--
+		nb++
+	}
+	return nb%2 == 0
 }
 
 // Verif_c01_roundtrip: parse -> print(opts) -> parse gives the same tree
@@ -104,6 +173,9 @@ func Verif_c01_roundtrip() {
 	parser := NewParser(Variant(lang), KeepComments(true))
 	f, err := parser.Parse(bytes.NewReader(src), "")
 	verifAssume(err == nil)
+	if verifC01Known(src, f, o) {
+		return
+	}
 	if o.simplify {
 		Simplify(f)
 	}
